@@ -91,14 +91,14 @@ FLOORS = {"quick": {"judged": 5500, "judged_levels": 380,
                     "reopen_checked": 1500, "close_checked": 400,
                     "factory_reopen_checked": 100,
                     "foreign_handlers_checked": 300,
-                    "latedir_checked": 18},
+                    "latedir_checked": 18, "samepath_checked": 12},
           "thorough": {"judged": 60000, "judged_levels": 380,
                        "judged_handlers": 15000, "judged_formats": 35000,
                        "judged_sequences": 14000, "second_calls": 50000,
                        "reopen_checked": 20000, "close_checked": 4500,
                        "factory_reopen_checked": 1200,
                        "foreign_handlers_checked": 3000,
-                       "latedir_checked": 18}}
+                       "latedir_checked": 18, "samepath_checked": 12}}
 HOOK_FLOORS = {"quick": {"addHandler": 7000, "handler_init": 3000,
                          "handler_close": 3000, "handler_reopen": 1500},
                "thorough": {"addHandler": 80000, "handler_init": 35000,
@@ -1079,6 +1079,90 @@ def run_latedir_case(env, case, res):
         shutil.rmtree(casedir, ignore_errors=True)
 
 
+def run_samepath_case(env, case, res):
+    """Several handler sections (of one logger or of several) name the same
+    file: each is a handler of its own, alive and registered; reopenFiles()
+    reopens every one of them, closeFiles() closes every one."""
+    res.evaluations += 1
+    mon = env.mon
+    casedir = env.newdir()
+    text = render_text(case, casedir)
+    try:
+        with logmon.Sandbox(env.loghandler):
+            mon.clear()
+            try:
+                cfg, _ = env.loadConfigFile(env.schema, io.StringIO(text))
+                loggers = [f() for f in cfg.loggers]
+            except Exception as exc:  # noqa
+                res.violate("refused-but-must-accept", case, "accepted",
+                            exc_brief(exc), detail=text, vsig="same-load")
+                return
+            hs = [h for lg in loggers for h in lg.handlers]
+            want = sum(len(lg["handlers"]) for lg in case["loggers"])
+            serials = [mon.serial_of(h) for h in hs]
+            if len(hs) != want or None in serials or \
+                    len(set(serials)) != len(serials):
+                res.violate("handler-count", case, want,
+                            [type(h).__name__ for h in hs],
+                            detail="handler sections naming one file",
+                            vsig="same-handlers")
+                return
+            for h in hs:
+                h.handle(make_record(ASCII_RECORD))     # opens delayed ones
+            pre = {s_: mon.get(s_).stream for s_ in serials}
+            mon.clear()
+            env.loghandler.reopenFiles()
+            touched = mon.serials("reopen")
+            mon.clear()
+            if sorted(touched) != sorted(serials):
+                res.violate("reopenFiles-wrong-handler-set", case,
+                            {"must_reopen": sorted(serials)},
+                            {"reopened": touched},
+                            detail="%d live handlers write to one file"
+                            % len(serials), vsig="same-reopen")
+                return
+            stale = [s_ for s_ in serials if pre[s_] is not None and
+                     (not pre[s_].closed or mon.get(s_).stream is pre[s_])]
+            if stale:
+                res.violate("reopenFiles-old-stream-open", case,
+                            "every handler on a fresh stream", stale,
+                            vsig="same-stale")
+                return
+            env.loghandler.closeFiles()
+            left = [s_ for s_, h in zip(serials, hs)
+                    if h.stream is not None and not h.stream.closed]
+            if left:
+                res.violate("closeFiles-stream-left-open", case,
+                            "every handler closed", left, vsig="same-close")
+                return
+            res.count("judged")
+            res.count("samepath_checked")
+    finally:
+        mon.forget_all()
+        gc.collect()
+        shutil.rmtree(casedir, ignore_errors=True)
+
+
+def samepath_cases():
+    n = 0
+    fmt = {"style": "classic", "format": "%(levelname)s %(message)s"}
+    for kinds in (("f", "f"), ("f", "s"), ("s", "t"), ("f", "F"),
+                  ("f", "f", "f"), ("t", "f", "s")):
+        for split in (False, True):
+            n += 1
+            hs = []
+            for kd in kinds:
+                opts = dict([x for x in SEQ_HANDLERS if x[0] == kd][0][1])
+                hs.append(dict(fmt, path="FILE:shared.log", **opts))
+            if split:
+                loggers = [{"type": "logger", "name": "zcvp%d_%d" % (n, j),
+                            "handlers": [h]} for j, h in enumerate(hs)]
+            else:
+                loggers = [{"type": "logger", "name": "zcvp%d" % n,
+                            "handlers": hs}]
+            yield {"kind": "samepath", "loggers": loggers}
+
+
 def latedir_cases():
     n = 0
     fmt = {"style": "classic", "format": "%(levelname)s %(message)s"}
@@ -2022,6 +2106,8 @@ def run_case(env, case, res):
         run_seq_case(env, case, res)
     elif kind == "latedir":
         run_latedir_case(env, case, res)
+    elif kind == "samepath":
+        run_samepath_case(env, case, res)
     else:
         raise ValueError("unknown case kind %r" % kind)
 
@@ -2092,6 +2178,10 @@ def _run_shard(ctx):
             if ctx.mine(i):
                 run_case(env, case, res)
         for case in latedir_cases():
+            i += 1
+            if ctx.mine(i):
+                run_case(env, case, res)
+        for case in samepath_cases():
             i += 1
             if ctx.mine(i):
                 run_case(env, case, res)
